@@ -634,6 +634,8 @@ static int applicable (int n, char **t, int *a)
           return 0;
       return 1;
     }
+  if (!strcmp (op, "rest") || !strcmp (op, "resto"))
+    return n == 2 && lpc_mode;
   if (!strcmp (op, "err"))
     return n == 3 && lpc_mode && SL (a[1]) && SL (a[2]);
   if (!strcmp (op, "efun"))
@@ -680,7 +682,11 @@ static int c06_cmd (char *line)
           /* warm-up: one no-op round trip through the interpreter, one object load */
           {
             char *w[1] = { "free 0" };
+            char *w2[1] = { "rest ({1,\"s\",([\"k\":2,]),})" };
+            char *w3[1] = { "resto ({1,})" };
             vh_apply_str (main_ob, "do_op", 1, w, 0, 0);
+            vh_apply_str (main_ob, "do_op", 1, w2, 0, 0);
+            vh_apply_str (main_ob, "do_op", 1, w3, 0, 0);
           }
         }
       {
